@@ -42,4 +42,3 @@ LEVEL_TEXT = ("Proof at the exact-arithmetic level: the model of to_double() ret
 LEVEL_NOTE = ("Partial parts: syntax, init text round trip and autoinit scale are stated (def ..._full) but not proved; the limb level of the "
               "bignum code is correspondence-only. One open finding (MSP over-estimate); two findings of this group are fixed (d4436fb, e89d5d7).")
 TECHNIQUE = "Lean 4 proofs about an executable exact-arithmetic model + differential execution against the real code with exact-rational oracles"
-NOT_CLAIMED = "model being updated to follow /repo fixes d4436fb / e89d5d7 (branch gB)"
